@@ -6,7 +6,10 @@ git -C /repo diff --quiet || { echo "seeded_run: /repo is dirty, refusing" >&2; 
 git -C /repo apply "$P" || { echo "seeded_run: patch does not apply" >&2; exit 3; }
 trap 'git -C /repo checkout -- . ; git -C /repo clean -fdq -- . 2>/dev/null' EXIT INT TERM
 O=$(mktemp)
+# the evidence file of a run against a deliberately broken tree is not evidence: keep the committed one
+EV=/verif/evidence/$ID.json; BK=$(mktemp); [ -f "$EV" ] && cp "$EV" "$BK"
 /verif/check "$ID" "$TIER" > "$O" 2>&1
+[ -s "$BK" ] && cp "$BK" "$EV"; rm -f "$BK"
 grep -E "^tlsim: violation" "$O" | cut -c1-420 | head -4
 grep -E "^VIOLATION|^KNOWN" "$O" | head -2
 grep -E "^tlsim: (property=.*exit=|MACHINERY)" "$O" | cut -c1-300 | tail -2
